@@ -7,7 +7,7 @@ CONTROL = [b"Base Header Level: 2", b"HTML Header Level: 3", b"LaTeX Header Leve
 OTHER = [b"Title: A title", b"Author: Some One", b"Date: 2020-01-01", b"CSS: style.css", b"HTML Header: <script src=\"x.js\"></script>", b"XHTML Header: <meta name=\"x\"/>",
          b"Keywords: a, b & c", b"my custom key: \"quoted\" <v> & more", b"LaTeX Input: mmd6-article-leader", b"LaTeX Footer: mmd6-article-footer", b"Copyright: 2020 \xc2\xa9 me",
          b"Subtitle: 100% $sure_ #1 {x} ~^\\", b"Affiliation: line one\n    line two", b"latex config: article", b"odf header: <x/>", b"Revision: 1.0", b"Web: http://example.com/?a=1&b=2",
-         b"Email: me@example.com", b"Author: A Person <a.person@example.org>"]
+         b"Title: Line one\\\n    line two  \n    line three", b"Email: me@example.com", b"Author: A Person <a.person@example.org>"]
 # MultiMarkdown-specific body blocks: everything whose rendering draws on per-document state (counters, labels, the random generator, note lists)
 MMDBLOCKS = [b"mail <user@example.com> auto\n\n", b"a [mail](mailto:x@y.org) link\n\n", b"note[^n1] here\n\n[^n1]: the note\n\n", b"cite[#c1] here\n\n[#c1]: the source\n\n",
              b"gloss[?g1] and abbr[>a1]\n\n[?g1]: the term\n[>a1]: the abbreviation\n\n", b"| a | b |\n|---|:-:|\n| c | d |\n[Caption][tl]\n\n", b"![fig](f.png)\n\n", b"math \\\\(x^2\\\\) and $y_1$\n\n",
